@@ -12,6 +12,7 @@ import (
 	"cloud.google.com/go/bigtable"
 	btapb "cloud.google.com/go/bigtable/admin/apiv2/adminpb"
 	btpb "cloud.google.com/go/bigtable/apiv2/bigtablepb"
+	iampb "cloud.google.com/go/iam/apiv1/iampb"
 	"github.com/fullstorydev/emulators/bigtable/bttest"
 	"google.golang.org/grpc/codes"
 	"google.golang.org/grpc/metadata"
@@ -86,10 +87,18 @@ func (s *Srv) SetClock(us int64) { atomic.StoreInt64(&s.clock, us) }
 // Close stops the server and removes an owned directory.
 func (s *Srv) Close() {
 	if s.S != nil {
-		func() {
+		// bounded: a handler that panicked while holding a server lock (recovered by the harness) would make Close wait forever
+		done := make(chan struct{})
+		srv := s.S
+		go func() {
+			defer close(done)
 			defer func() { _ = recover() }()
-			s.S.Close()
+			srv.Close()
 		}()
+		select {
+		case <-done:
+		case <-time.After(3 * time.Second):
+		}
 		s.S = nil
 	}
 	if s.ownDir && s.Dir != "" {
@@ -300,93 +309,32 @@ func setErr(res *Result, err error) {
 	res.Msg = err.Error()
 }
 
-// Exec runs one operation against the server, capturing panics.
-func (s *Srv) Exec(op *Op) (res *Result) {
-	return s.ExecCtx(context.Background(), op, nil)
-}
-
-// ExecCtx: onSend is handed to the ReadRows stream (see ReadStream.OnSend).
-func (s *Srv) ExecCtx(ctx context.Context, op *Op, onSend func(n int) error) (res *Result) {
-	res = &Result{}
-	defer func() {
-		if r := recover(); r != nil {
-			if he, ok := r.(HarnessError); ok {
-				panic("HARNESS: " + string(he))
-			}
-			res.Panic = fmt.Sprintf("%v\n%s", r, debug.Stack())
-		}
-	}()
-	if op.Clock != nil {
-		s.SetClock(*op.Clock)
-	}
+// BuildReq turns an operation into (rpc name, request message). ok=false for
+// harness-only pseudo operations (SetClock, GC).
+func BuildReq(op *Op) (rpc string, msg proto.Message, ok bool) {
 	name := op.FullName()
 	switch op.K {
-	case "SetClock":
 	case "MutateRow":
-		req := wire(&btpb.MutateRowRequest{TableName: name, RowKey: op.Key.B(), Mutations: MutsPB(op.Muts)}, &btpb.MutateRowRequest{})
-		resp, err := s.API.MutateRow(ctx, req)
-		setErr(res, err)
-		if err == nil {
-			respCopy(resp, &btpb.MutateRowResponse{})
-		}
+		return "MutateRow", &btpb.MutateRowRequest{TableName: name, RowKey: op.Key.B(), Mutations: MutsPB(op.Muts)}, true
 	case "MutateRows":
 		r := &btpb.MutateRowsRequest{TableName: name}
 		for _, e := range op.Entries {
 			r.Entries = append(r.Entries, &btpb.MutateRowsRequest_Entry{RowKey: e.Key.B(), Mutations: MutsPB(e.Muts)})
 		}
-		req := wire(r, &btpb.MutateRowsRequest{})
-		st := &mutStream{baseStream: baseStream{ctx}}
-		err := s.API.MutateRows(req, st)
-		setErr(res, err)
-		for _, raw := range st.msgs {
-			var m btpb.MutateRowsResponse
-			if e := proto.Unmarshal(raw, &m); e != nil {
-				panic(e)
-			}
-			for _, en := range m.Entries {
-				res.Entries = append(res.Entries, EntryStatus{Index: en.Index, Code: en.GetStatus().GetCode()})
-			}
-		}
-		res.Msgs = len(st.msgs)
+		return "MutateRows", r, true
 	case "CheckAndMutate":
-		req := wire(&btpb.CheckAndMutateRowRequest{TableName: name, RowKey: op.Key.B(), PredicateFilter: op.Pred.PB(),
-			TrueMutations: MutsPB(op.TMuts), FalseMutations: MutsPB(op.FMuts)}, &btpb.CheckAndMutateRowRequest{})
-		resp, err := s.API.CheckAndMutateRow(ctx, req)
-		setErr(res, err)
-		if err == nil {
-			res.Matched = respCopy(resp, &btpb.CheckAndMutateRowResponse{}).PredicateMatched
-		}
+		return "CheckAndMutateRow", &btpb.CheckAndMutateRowRequest{TableName: name, RowKey: op.Key.B(), PredicateFilter: op.Pred.PB(),
+			TrueMutations: MutsPB(op.TMuts), FalseMutations: MutsPB(op.FMuts)}, true
 	case "RMW":
 		r := &btpb.ReadModifyWriteRowRequest{TableName: name, RowKey: op.Key.B()}
 		for _, ru := range op.Rules {
 			r.Rules = append(r.Rules, ru.PB())
 		}
-		req := wire(r, &btpb.ReadModifyWriteRowRequest{})
-		resp, err := s.API.ReadModifyWriteRow(ctx, req)
-		setErr(res, err)
-		if err == nil {
-			c := respCopy(resp, &btpb.ReadModifyWriteRowResponse{})
-			res.Rows = []RowOut{rowFromPB(c.Row)}
-		}
+		return "ReadModifyWriteRow", r, true
 	case "ReadRows":
-		req := wire(&btpb.ReadRowsRequest{TableName: name, Rows: op.Rows.PB(), Filter: op.Filter.PB(), RowsLimit: op.Limit}, &btpb.ReadRowsRequest{})
-		st := &ReadStream{baseStream: baseStream{ctx}, OnSend: onSend}
-		err := s.API.ReadRows(req, st)
-		setErr(res, err)
-		res.Rows, res.StreamErr = DecodeRead(st.Msgs)
-		res.Msgs = len(st.Msgs)
+		return "ReadRows", &btpb.ReadRowsRequest{TableName: name, Rows: op.Rows.PB(), Filter: op.Filter.PB(), RowsLimit: op.Limit}, true
 	case "Sample":
-		req := wire(&btpb.SampleRowKeysRequest{TableName: name}, &btpb.SampleRowKeysRequest{})
-		st := &sampleStream{baseStream: baseStream{ctx}}
-		err := s.API.SampleRowKeys(req, st)
-		setErr(res, err)
-		for _, raw := range st.msgs {
-			var m btpb.SampleRowKeysResponse
-			if e := proto.Unmarshal(raw, &m); e != nil {
-				panic(e)
-			}
-			res.Samples = append(res.Samples, SampleKey{Key: BS(m.RowKey), Offset: m.OffsetBytes})
-		}
+		return "SampleRowKeys", &btpb.SampleRowKeysRequest{TableName: name}, true
 	case "CreateTable":
 		r := &btapb.CreateTableRequest{Parent: op.ParentName(), TableId: op.Table}
 		if !op.NoTable {
@@ -398,22 +346,202 @@ func (s *Srv) ExecCtx(ctx context.Context, op *Op, onSend func(n int) error) (re
 				}
 			}
 		}
-		req := wire(r, &btapb.CreateTableRequest{})
-		resp, err := s.API.CreateTable(ctx, req)
+		return "CreateTable", r, true
+	case "GetTable":
+		return "GetTable", &btapb.GetTableRequest{Name: name}, true
+	case "ListTables":
+		return "ListTables", &btapb.ListTablesRequest{Parent: op.ParentName()}, true
+	case "DeleteTable":
+		return "DeleteTable", &btapb.DeleteTableRequest{Name: name}, true
+	case "ModifyCF":
+		r := &btapb.ModifyColumnFamiliesRequest{Name: name}
+		for _, m := range op.Mods {
+			r.Modifications = append(r.Modifications, m.PB())
+		}
+		return "ModifyColumnFamilies", r, true
+	case "DropRowRange":
+		r := &btapb.DropRowRangeRequest{Name: name}
+		if op.All {
+			r.Target = &btapb.DropRowRangeRequest_DeleteAllDataFromTable{DeleteAllDataFromTable: true}
+		} else if !op.NoTgt {
+			r.Target = &btapb.DropRowRangeRequest_RowKeyPrefix{RowKeyPrefix: op.Prefix.B()}
+		}
+		return "DropRowRange", r, true
+	case "GenToken":
+		return "GenerateConsistencyToken", &btapb.GenerateConsistencyTokenRequest{Name: name}, true
+	case "CheckConsistency":
+		return "CheckConsistency", &btapb.CheckConsistencyRequest{Name: name, ConsistencyToken: op.Token}, true
+	}
+	return "", nil, false
+}
+
+// RPCs lists the request type of every RPC the harness can call from raw bytes.
+var RPCs = map[string]func() proto.Message{
+	"MutateRow":                func() proto.Message { return &btpb.MutateRowRequest{} },
+	"MutateRows":               func() proto.Message { return &btpb.MutateRowsRequest{} },
+	"CheckAndMutateRow":        func() proto.Message { return &btpb.CheckAndMutateRowRequest{} },
+	"ReadModifyWriteRow":       func() proto.Message { return &btpb.ReadModifyWriteRowRequest{} },
+	"ReadRows":                 func() proto.Message { return &btpb.ReadRowsRequest{} },
+	"SampleRowKeys":            func() proto.Message { return &btpb.SampleRowKeysRequest{} },
+	"CreateTable":              func() proto.Message { return &btapb.CreateTableRequest{} },
+	"GetTable":                 func() proto.Message { return &btapb.GetTableRequest{} },
+	"ListTables":               func() proto.Message { return &btapb.ListTablesRequest{} },
+	"DeleteTable":              func() proto.Message { return &btapb.DeleteTableRequest{} },
+	"ModifyColumnFamilies":     func() proto.Message { return &btapb.ModifyColumnFamiliesRequest{} },
+	"DropRowRange":             func() proto.Message { return &btapb.DropRowRangeRequest{} },
+	"GenerateConsistencyToken": func() proto.Message { return &btapb.GenerateConsistencyTokenRequest{} },
+	"CheckConsistency":         func() proto.Message { return &btapb.CheckConsistencyRequest{} },
+	"PingAndWarm":              func() proto.Message { return &btpb.PingAndWarmRequest{} },
+	"GetInstance":              func() proto.Message { return &btapb.GetInstanceRequest{} },
+	"ListInstances":            func() proto.Message { return &btapb.ListInstancesRequest{} },
+	"CreateBackup":             func() proto.Message { return &btapb.CreateBackupRequest{} },
+	"GetIamPolicy":             func() proto.Message { return &iampb.GetIamPolicyRequest{} },
+}
+
+// RPCNames in a fixed order (for generators / fuzz selectors).
+var RPCNames = func() []string {
+	var out []string
+	for k := range RPCs {
+		out = append(out, k)
+	}
+	sort.Strings(out)
+	return out
+}()
+
+// ExecRaw calls rpc with a request decoded from payload. ok=false when the
+// bytes are not a valid message of that type (gRPC would reject them before
+// the service sees them).
+func (s *Srv) ExecRaw(ctx context.Context, rpc string, payload []byte) (res *Result, ok bool) {
+	mk := RPCs[rpc]
+	if mk == nil {
+		return nil, false
+	}
+	msg := mk()
+	if err := proto.Unmarshal(payload, msg); err != nil {
+		return nil, false
+	}
+	return s.Call(ctx, rpc, msg, nil), true
+}
+
+// Exec runs one operation against the server, capturing panics.
+func (s *Srv) Exec(op *Op) (res *Result) {
+	return s.ExecCtx(context.Background(), op, nil)
+}
+
+// ExecCtx: onSend is handed to the ReadRows stream (see ReadStream.OnSend).
+func (s *Srv) ExecCtx(ctx context.Context, op *Op, onSend func(n int) error) (res *Result) {
+	if op.Clock != nil {
+		s.SetClock(*op.Clock)
+	}
+	switch op.K {
+	case "SetClock":
+		return &Result{}
+	case "GC":
+		res = &Result{}
+		defer func() {
+			if r := recover(); r != nil {
+				res.Panic = fmt.Sprintf("%v\n%s", r, debug.Stack())
+			}
+		}()
+		if op.AgeMin > 0 {
+			bttest.VerifAgeActivity(s.S, time.Duration(op.AgeMin)*time.Minute)
+		}
+		bttest.VerifGC(s.S, op.Force)
+		return res
+	}
+	rpc, msg, ok := BuildReq(op)
+	if !ok {
+		panic("harness: unknown op " + op.K)
+	}
+	// what gRPC does: the service sees a freshly unmarshalled copy
+	buf, err := proto.Marshal(msg)
+	if err != nil {
+		panic("HARNESS: request does not marshal (unsound generator): " + err.Error())
+	}
+	fresh := RPCs[rpc]()
+	if err := proto.Unmarshal(buf, fresh); err != nil {
+		panic("HARNESS: request does not unmarshal: " + err.Error())
+	}
+	return s.Call(ctx, rpc, fresh, onSend)
+}
+
+// Call invokes the handler of rpc with msg, capturing panics; the response is
+// marshalled right after the handler returns (as gRPC does).
+func (s *Srv) Call(ctx context.Context, rpc string, msg proto.Message, onSend func(n int) error) (res *Result) {
+	res = &Result{}
+	defer func() {
+		if r := recover(); r != nil {
+			if he, ok := r.(HarnessError); ok {
+				panic("HARNESS: " + string(he))
+			}
+			res.Panic = fmt.Sprintf("%v\n%s", r, debug.Stack())
+		}
+	}()
+	switch rpc {
+	case "MutateRow":
+		resp, err := s.API.MutateRow(ctx, msg.(*btpb.MutateRowRequest))
+		setErr(res, err)
+		if err == nil {
+			respCopy(resp, &btpb.MutateRowResponse{})
+		}
+	case "MutateRows":
+		st := &mutStream{baseStream: baseStream{ctx}}
+		err := s.API.MutateRows(msg.(*btpb.MutateRowsRequest), st)
+		setErr(res, err)
+		for _, raw := range st.msgs {
+			var m btpb.MutateRowsResponse
+			if e := proto.Unmarshal(raw, &m); e != nil {
+				panic(e)
+			}
+			for _, en := range m.Entries {
+				res.Entries = append(res.Entries, EntryStatus{Index: en.Index, Code: en.GetStatus().GetCode()})
+			}
+		}
+		res.Msgs = len(st.msgs)
+	case "CheckAndMutateRow":
+		resp, err := s.API.CheckAndMutateRow(ctx, msg.(*btpb.CheckAndMutateRowRequest))
+		setErr(res, err)
+		if err == nil {
+			res.Matched = respCopy(resp, &btpb.CheckAndMutateRowResponse{}).PredicateMatched
+		}
+	case "ReadModifyWriteRow":
+		resp, err := s.API.ReadModifyWriteRow(ctx, msg.(*btpb.ReadModifyWriteRowRequest))
+		setErr(res, err)
+		if err == nil {
+			c := respCopy(resp, &btpb.ReadModifyWriteRowResponse{})
+			res.Rows = []RowOut{rowFromPB(c.Row)}
+		}
+	case "ReadRows":
+		st := &ReadStream{baseStream: baseStream{ctx}, OnSend: onSend}
+		err := s.API.ReadRows(msg.(*btpb.ReadRowsRequest), st)
+		setErr(res, err)
+		res.Rows, res.StreamErr = DecodeRead(st.Msgs)
+		res.Msgs = len(st.Msgs)
+	case "SampleRowKeys":
+		st := &sampleStream{baseStream: baseStream{ctx}}
+		err := s.API.SampleRowKeys(msg.(*btpb.SampleRowKeysRequest), st)
+		setErr(res, err)
+		for _, raw := range st.msgs {
+			var m btpb.SampleRowKeysResponse
+			if e := proto.Unmarshal(raw, &m); e != nil {
+				panic(e)
+			}
+			res.Samples = append(res.Samples, SampleKey{Key: BS(m.RowKey), Offset: m.OffsetBytes})
+		}
+	case "CreateTable":
+		resp, err := s.API.CreateTable(ctx, msg.(*btapb.CreateTableRequest))
 		setErr(res, err)
 		if err == nil {
 			res.Def = defFromPB(respCopy(resp, &btapb.Table{}))
 		}
 	case "GetTable":
-		req := wire(&btapb.GetTableRequest{Name: name}, &btapb.GetTableRequest{})
-		resp, err := s.API.GetTable(ctx, req)
+		resp, err := s.API.GetTable(ctx, msg.(*btapb.GetTableRequest))
 		setErr(res, err)
 		if err == nil {
 			res.Def = defFromPB(respCopy(resp, &btapb.Table{}))
 		}
 	case "ListTables":
-		req := wire(&btapb.ListTablesRequest{Parent: op.ParentName()}, &btapb.ListTablesRequest{})
-		resp, err := s.API.ListTables(ctx, req)
+		resp, err := s.API.ListTables(ctx, msg.(*btapb.ListTablesRequest))
 		setErr(res, err)
 		if err == nil {
 			for _, t := range respCopy(resp, &btapb.ListTablesResponse{}).Tables {
@@ -422,51 +550,46 @@ func (s *Srv) ExecCtx(ctx context.Context, op *Op, onSend func(n int) error) (re
 			sort.Strings(res.Tables)
 		}
 	case "DeleteTable":
-		req := wire(&btapb.DeleteTableRequest{Name: name}, &btapb.DeleteTableRequest{})
-		_, err := s.API.DeleteTable(ctx, req)
+		_, err := s.API.DeleteTable(ctx, msg.(*btapb.DeleteTableRequest))
 		setErr(res, err)
-	case "ModifyCF":
-		r := &btapb.ModifyColumnFamiliesRequest{Name: name}
-		for _, m := range op.Mods {
-			r.Modifications = append(r.Modifications, m.PB())
-		}
-		req := wire(r, &btapb.ModifyColumnFamiliesRequest{})
-		resp, err := s.API.ModifyColumnFamilies(ctx, req)
+	case "ModifyColumnFamilies":
+		resp, err := s.API.ModifyColumnFamilies(ctx, msg.(*btapb.ModifyColumnFamiliesRequest))
 		setErr(res, err)
 		if err == nil {
 			res.Def = defFromPB(respCopy(resp, &btapb.Table{}))
 		}
 	case "DropRowRange":
-		r := &btapb.DropRowRangeRequest{Name: name}
-		if op.All {
-			r.Target = &btapb.DropRowRangeRequest_DeleteAllDataFromTable{DeleteAllDataFromTable: true}
-		} else if !op.NoTgt {
-			r.Target = &btapb.DropRowRangeRequest_RowKeyPrefix{RowKeyPrefix: op.Prefix.B()}
-		}
-		req := wire(r, &btapb.DropRowRangeRequest{})
-		_, err := s.API.DropRowRange(ctx, req)
+		_, err := s.API.DropRowRange(ctx, msg.(*btapb.DropRowRangeRequest))
 		setErr(res, err)
-	case "GenToken":
-		req := wire(&btapb.GenerateConsistencyTokenRequest{Name: name}, &btapb.GenerateConsistencyTokenRequest{})
-		resp, err := s.API.GenerateConsistencyToken(ctx, req)
+	case "GenerateConsistencyToken":
+		resp, err := s.API.GenerateConsistencyToken(ctx, msg.(*btapb.GenerateConsistencyTokenRequest))
 		setErr(res, err)
 		if err == nil {
 			res.Token = respCopy(resp, &btapb.GenerateConsistencyTokenResponse{}).ConsistencyToken
 		}
 	case "CheckConsistency":
-		req := wire(&btapb.CheckConsistencyRequest{Name: name, ConsistencyToken: op.Token}, &btapb.CheckConsistencyRequest{})
-		resp, err := s.API.CheckConsistency(ctx, req)
+		resp, err := s.API.CheckConsistency(ctx, msg.(*btapb.CheckConsistencyRequest))
 		setErr(res, err)
 		if err == nil {
 			res.Consist = respCopy(resp, &btapb.CheckConsistencyResponse{}).Consistent
 		}
-	case "GC":
-		if op.AgeMin > 0 {
-			bttest.VerifAgeActivity(s.S, time.Duration(op.AgeMin)*time.Minute)
-		}
-		bttest.VerifGC(s.S, op.Force)
+	case "PingAndWarm":
+		_, err := s.API.PingAndWarm(ctx, msg.(*btpb.PingAndWarmRequest))
+		setErr(res, err)
+	case "GetInstance":
+		_, err := s.API.GetInstance(ctx, msg.(*btapb.GetInstanceRequest))
+		setErr(res, err)
+	case "ListInstances":
+		_, err := s.API.ListInstances(ctx, msg.(*btapb.ListInstancesRequest))
+		setErr(res, err)
+	case "CreateBackup":
+		_, err := s.API.CreateBackup(ctx, msg.(*btapb.CreateBackupRequest))
+		setErr(res, err)
+	case "GetIamPolicy":
+		_, err := s.API.GetIamPolicy(ctx, msg.(*iampb.GetIamPolicyRequest))
+		setErr(res, err)
 	default:
-		panic("harness: unknown op " + op.K)
+		panic("harness: unknown rpc " + rpc)
 	}
 	return res
 }
